@@ -681,19 +681,51 @@ class PteraTransformer(NodeTransformer):
                 )
             return accum
 
+        def _mirror(target, leaves):
+            # Mirror the structure of an unpacking target with fresh
+            # temporaries, so that Python itself does the unpacking
+            if isinstance(target, (ast.Tuple, ast.List)):
+                return type(target)(
+                    elts=[_mirror(elt, leaves) for elt in target.elts],
+                    ctx=ast.Store(),
+                )
+            elif isinstance(target, ast.Starred):
+                return ast.Starred(
+                    value=_mirror(target.value, leaves), ctx=ast.Store()
+                )
+            else:
+                sym = _gensym()
+                leaves.append((target, sym))
+                return ast.Name(id=sym, ctx=ast.Store())
+
+        def _unpack(target):
+            leaves = []
+            accum = [
+                ast.copy_location(
+                    ast.Assign(
+                        targets=[_mirror(target, leaves)], value=node.value
+                    ),
+                    node,
+                )
+            ]
+            for tgt, sym in leaves:
+                accum += self.visit_Assign(
+                    ast.copy_location(
+                        ast.Assign(
+                            targets=[tgt],
+                            value=ast.Name(id=sym, ctx=ast.Load()),
+                        ),
+                        node,
+                    )
+                )
+            return accum
+
         targets = node.targets
         if len(targets) > 1:
             return _decompose(targets, lambda value, i: value)
 
-        elif isinstance(targets[0], ast.Tuple):
-            return _decompose(
-                targets[0].elts,
-                lambda value, i: ast.Subscript(
-                    value=value,
-                    slice=ast.Index(value=ast.Constant(i)),
-                    ctx=ast.Load(),
-                ),
-            )
+        elif isinstance(targets[0], (ast.Tuple, ast.List)):
+            return _unpack(targets[0])
         else:
             return self.make_interaction(
                 targets[0], None, node.value, orig=node
